@@ -47,3 +47,11 @@ CHECKS["C17"] = dict(
     thorough=dict(shards=16, checks=20000, timeout=2400),
     assumptions=["entries stay far below the cache's size and 5-minute age limits, so eviction/expiry cannot interfere (and are not tested)", "concurrent interleavings are sampled with varied GOMAXPROCS, not enumerated"],
 )
+
+CHECKS["C19"] = dict(
+    test="TestC19", level="exploration", exhaustive_part=True,
+    exhaustive_part_text="one-field-at-a-boundary over every listed length/content/integer/timestamp value for signed/unsigned and countersigned variants, all pairs integer x timestamp and length x length",
+    quick=dict(shards=4, checks=1500, timeout=600),
+    thorough=dict(shards=16, checks=30000, timeout=2400),
+    assumptions=["timestamps are restricted to the int64-nanosecond range (time.Time outside it has no defined UnixNano, which every digest uses)", "a proto.Marshal error on invalid UTF-8 in a string field is an accepted outcome (counted), a silently altered value is not"],
+)
